@@ -48,6 +48,11 @@ impl<'de> DeserializeSeed<'de> for &DynType {
             DynType::Unit => <()>::deserialize(d).map(|_| Dyn::Unit),
             DynType::Value => toml::Value::deserialize(d).map(Dyn::Value),
             DynType::Opt(t) => d.deserialize_option(OptVisitor(t)),
+            DynType::Spanned(t) => d.deserialize_struct(
+                serde_spanned::__unstable::NAME,
+                &SPANNED_FIELDS,
+                SpannedVisitor(t),
+            ),
             DynType::Seq(t) => d.deserialize_seq(SeqVisitor(t)),
             DynType::Tuple(ts) => d.deserialize_tuple(ts.len(), TupleVisitor(ts, Expect::Tuple(ts.len()))),
             DynType::Map(k, v) => d.deserialize_map(MapVisitor(k, v)),
@@ -119,6 +124,52 @@ impl<'de> Visitor<'de> for OptVisitor<'_> {
     }
     fn visit_some<D: Deserializer<'de>>(self, d: D) -> Result<Dyn, D::Error> {
         self.0.deserialize(d).map(|v| Dyn::Some(Box::new(v)))
+    }
+}
+
+// ---- impl Deserialize for serde_spanned::Spanned<T> (serde_spanned/src/spanned.rs) ----------
+static SPANNED_FIELDS: [&str; 3] = [
+    serde_spanned::__unstable::START_FIELD,
+    serde_spanned::__unstable::END_FIELD,
+    serde_spanned::__unstable::VALUE_FIELD,
+];
+struct SpannedVisitor<'a>(&'a DynType);
+impl<'de> Visitor<'de> for SpannedVisitor<'_> {
+    type Value = Dyn;
+    fn expecting(&self, f: &mut fmt::Formatter<'_>) -> fmt::Result {
+        f.write_str("a spanned value")
+    }
+    fn visit_map<A: MapAccess<'de>>(self, mut map: A) -> Result<Dyn, A::Error> {
+        use serde_spanned::__unstable::{END_FIELD, START_FIELD, VALUE_FIELD};
+        let mut start: Option<usize> = None;
+        let mut end: Option<usize> = None;
+        let mut value: Option<Dyn> = None;
+        while let Some(key) = map.next_key::<&str>()? {
+            if key == START_FIELD {
+                if start.is_some() {
+                    return Err(A::Error::duplicate_field(START_FIELD));
+                }
+                start = Some(map.next_value()?);
+            } else if key == END_FIELD {
+                if end.is_some() {
+                    return Err(A::Error::duplicate_field(END_FIELD));
+                }
+                end = Some(map.next_value()?);
+            } else if key == VALUE_FIELD {
+                if value.is_some() {
+                    return Err(A::Error::duplicate_field(VALUE_FIELD));
+                }
+                value = Some(map.next_value_seed(self.0)?);
+            } else {
+                return Err(A::Error::unknown_field(key, &SPANNED_FIELDS));
+            }
+        }
+        match (start, end, value) {
+            (Some(a), Some(b), Some(v)) => Ok(Dyn::Spanned(a, b, Box::new(v))),
+            (None, _, _) => Err(A::Error::missing_field(START_FIELD)),
+            (_, None, _) => Err(A::Error::missing_field(END_FIELD)),
+            (_, _, None) => Err(A::Error::missing_field(VALUE_FIELD)),
+        }
     }
 }
 
